@@ -147,9 +147,29 @@ func fanoutStageRule(o *Ob) {
 	failed := L("("+exs+"#2 == nil)", false)
 	// every store of the goroutine that carries the stage's error into state shared with Exec
 	var errStores []ssa.Instruction
+	// a slot of its own handed to the goroutine: a pointer parameter whose argument at the go statement is the
+	// address of this iteration's element of a list made in Exec
+	var slots []ssa.Value // the lists such slots belong to
+	slotParam := func(addr ssa.Value) bool {
+		par, ok := addr.(*ssa.Parameter)
+		if !ok || viaWG {
+			return false
+		}
+		for i, p := range lit.Params {
+			if p == par && i < len(g.Common().Args) {
+				if ia, ok := g.Common().Args[i].(*ssa.IndexAddr); ok && e.X(fn, ia.Index) == "i" {
+					if ms, ok := ia.X.(*ssa.MakeSlice); ok {
+						slots = append(slots, ms)
+						return true
+					}
+				}
+			}
+		}
+		return false
+	}
 	for _, in := range AllInstrs(lit) {
 		st, ok := in.(*ssa.Store)
-		if !ok || !rootsInFreeVar(st.Addr) {
+		if !ok || !rootsInFreeVar(st.Addr) && !slotParam(st.Addr) {
 			continue
 		}
 		if e.DerivesFrom(st.Val, true, func(v ssa.Value) bool {
@@ -209,6 +229,9 @@ func fanoutStageRule(o *Ob) {
 			inc := src[ex.(*ssa.Call)]
 			for _, p := range recParams {
 				inc = inc || src[p] // what the recording function was handed (the integration's error, shown above)
+			}
+			for _, sl := range slots {
+				inc = inc || src[sl] // the list whose slots the goroutines filled
 			}
 			o.Check(inc, "fan-err-value", "the error returned by FanoutStage.Exec does not include the integrations' errors", ret)
 		}
